@@ -275,6 +275,10 @@ void Server::Private::run()
         deleteClient(client);
     }
 
+    timeout = _queuedTimers.begin().key() - now; // onClosed may have created or removed timers
+    if (timeout < 0)
+      timeout = 0;
+
     if (!_sockets.poll(pollEvent, timeout))
       break;
 
